@@ -39,6 +39,51 @@ def cfg_json(args):
     return c
 
 
+def replay(ctx, pid, mons):
+    """bin/check Cxx --replay file : re-execute a recorded witness (harness_args + tokens) on the real handler of the current tree in
+    a fresh process and let TLC judge the resulting linear trace with the same monitors."""
+    rp = json.load(open(ctx.replay_path))
+    r = rp.get("replay", rp)
+    ctx.level = "model_checking"
+    ctx.coverage = {"states": 0, "transitions": 0, "traces_validated_against_impl": 0, "samples": [r]}
+    if r.get("growth") == "bushandler" or r.get("harness") == "c04_bushandler":
+        from checks import c04_bushandler
+        c04_bushandler.replay(ctx, r)
+        return True
+    if r.get("mode") == "queue":
+        from vf import tlc
+        wd = recs.workdir(pid + "rp")
+        hf = wd + "/hist.ndjson"
+        with open(hf, "w") as f:
+            f.write(json.dumps({"h": 1, "hang": 0, "ev": r["history"]}) + "\n")
+        res = tlc.run("QueueLin", "QueueLin.cfg", env={"VF_HISTS": hf}, workers=2, timeout=600, heap="4g", tag="QUEUE-replay-%d" % os.getpid())
+        if not [v for v in res["vf"] if v[1] == "ACC"]:
+            ctx.violation(rp.get("key", "C04:queue:not-linearizable"), "the recorded history is not linearizable w.r.t. spec/QueueLin.tla "
+                          "(a recorded history of real threads: re-validated, not re-executed)", r)
+        return True
+    if r.get("mode") == "run" or "tokens" not in r:
+        ctx.notes.append("this witness comes from a run with real threads (sampled schedule); it cannot be re-executed deterministically - "
+                         "re-run the check itself")
+        return True
+    exe = harness()
+    wd = recs.workdir(pid + "rp")
+    tf, gf, cf = wd + "/tokens.txt", wd + "/replay.ndjson", wd + "/cfg.json"
+    with open(tf, "w") as f:
+        f.write("".join(t + "\n" for t in r["tokens"]))
+    args = list(r["harness_args"])
+    recs.run_harness(ctx, exe, ["replay", gf, tf] + args)
+    with open(cf, "w") as f:
+        json.dump(cfg_json(args), f)
+    stats, found = graph.check(ctx, "ProtoGraph", "ProtoGraph.cfg", gf, env={"VF_MON": mons, "VF_CFG": cf}, tag="%s-replay" % pid,
+                               heap="4g", workers=2)
+    ctx.coverage.update({"states": stats["distinct"], "transitions": stats["generated"], "traces_validated_against_impl": 1})
+    for sig, toks in found:
+        if sig.startswith(pid + ":"):
+            ctx.violation(sig, "P monitor rejects the replayed execution of the real handler (%d steps)" % len(toks),
+                          {"harness_args": args, "tokens": toks})
+    return True
+
+
 def run_configs(ctx, pid, mons, configs, heap="12g", workers=8, random_runs=None, spec_fidelity=None, spec_mc=False):
     ctx.level = "model_checking"
     exe = harness()
